@@ -24,7 +24,7 @@ TESTING PART (labelled so in the evidence; the claim is partial by construction,
   H  the harnesses of C05 (operator algebra incl. equality), C13 (container histories), C15 (vertex storage),
      C18 (index bookkeeping), C20 (lattice interface, getSite of unknown labels)                          -> ASan+UBSan
   M  MPI runs (np = 2, 3; 4 in the thorough tier) of harness/h_c06 (Hamiltonian, G, 2PGF container split / not split,
-     single 2PGF incl. empty list) under the ASan+UBSan build
+     single 2PGF incl. empty list) and harness/h_c16 (the job dispatcher alone) under the ASan+UBSan build
   V  Valgrind memcheck (--track-origins=yes) of the NON-instrumented build on S (and on h_ed queries in the thorough
      tier): uninitialised reads, which the sanitizers do not see
 A sanitizer / Valgrind report is a violation keyed "<kind> in <function>", with scenario + query as replay.
@@ -353,6 +353,41 @@ class Runner:
             chk.notes.append("stage M %s np=%d: %s" % (name, P, throws[:3]))
 
 
+DISPATCH_SCRIPT = ("S 1 skel 5 0 2 7 200 C 3 1 4 1 5\nS 2 noboss 4 0 1 3 100 C 1 1 1 1\nS 3 skel 3 2 1,2 5 100 C 2 2 2\nS 4 skel 1 0 1 1 0 C 1\n"
+                   "S 5 skel 7 0 1 9 50 C 1 2 3 4 5 6 7\n")
+
+
+def dispatcher(R, P):
+    """harness/h_c16 (the job dispatcher alone: mpi_skel with and without a working boss, split communicators, more ranks than jobs)
+    under the ASan+UBSan build"""
+    chk = R.chk
+    h = pv.build_harness("h_c16", "asan")
+    d = tempfile.mkdtemp(prefix="c17d-", dir=pv.BUILD)
+    nscen = DISPATCH_SCRIPT.count("\n")
+    try:
+        os.makedirs(os.path.join(d, "out"))
+        open(os.path.join(d, "s.txt"), "w").write(DISPATCH_SCRIPT)
+        rc, out, err = pv.run_harness(h, None, np=P, timeout=300, args=["--script", os.path.join(d, "s.txt"), "--out", os.path.join(d, "out"), "--watchdog", "60"])
+        finished, trouble = 0, []
+        for r in range(P):
+            try:
+                txt = open(os.path.join(d, "out", "rank%d.out" % r)).read()
+            except OSError:
+                txt = ""
+            if len(re.findall(r'^SCEN \S+ end', txt, re.M)) == nscen:
+                finished += 1
+            trouble += [l for l in txt.split("\n") if l.startswith("WATCHDOG") or l.startswith("THROW")]
+    finally:
+        shutil.rmtree(d, ignore_errors=True)
+    chk.case("M-dispatch" + str(P) + DISPATCH_SCRIPT, "M:dispatcher np=%d" % P, True, None)
+    R.count("M")
+    rep = sanitizer_report(err)
+    if rc != 0 or rep or finished != P or trouble:
+        kind, fn = rep if rep else ("crash rc=%d ranks finished %d/%d %s" % (rc, finished, P, trouble[:2]), "?")
+        R.report("M", kind, fn, "h_c16 (dispatcher) under mpiexec -np %d" % P,
+                 {"harness": "h_c16 (asan variant)", "np": P, "input": DISPATCH_SCRIPT, "stderr_tail": (pv.sanitizer_digest(err) or err[-2500:])[:4000]})
+
+
 MPI_CMDS = ("ham\ngf 0 1 0 1 -2\nc2 1 0 3 0 1 0 1 0 2 0 2 1 3 1 3 2 0 0 0 1 -1 1\nc2 0 1 2 0 1 0 1 0 0 1 1 0\n"
             "c2 1 1 1 0 1 0 1 0\nchi 0 1 0 1 0 2 0 0 0 -1 0 -1\nchi 0 1 0 1 1 0\nchi 1 0 0 1 0 0\n")
 MPI_CMDS_ATOM = "ham\ngf 1 0 0 1\nc2 1 0 2 0 1 0 1 1 0 0 1 1 0 0 0\nc2 0 0 1 0 1 0 1 0\nchi 0 1 0 1 0 1 0 0 0\nchi 0 1 0 1 0 0\n"
@@ -422,7 +457,8 @@ def run(chk):
             R.mpi("M", "atom-ignore", ATOM_IGNORE, MPI_CMDS_ATOM, P)
             if not quick:
                 R.mpi("M", "mixed-spin", MIXED_SPIN % 1, "ham\ngf 0 2 0 1\nc2 1 0 2 0 1 0 1 0 2 0 2 1 0 0 0\nchi 0 2 0 2 0 0\n", P)
-        chk.extra["mpi_asan"] = "h_c06 (asan variant) under mpiexec -np %s" % ("2, 3" if quick else "2, 3, 4")
+            dispatcher(R, P)
+        chk.extra["mpi_asan"] = "h_c06 and h_c16 (asan variant) under mpiexec -np %s" % ("2, 3" if quick else "2, 3, 4")
     except pv.BuildError as ex:
         chk.notes.append("stage M skipped: h_c06 does not build with the asan variant: %s" % ex.what)
         chk.extra["mpi_asan"] = "skipped (h_c06 did not build with the asan variant)"
@@ -465,7 +501,7 @@ def run(chk):
     chk.extra["testing_part"] = {"cases_per_stage": R.stage_counts,
                                  "stages": {"W": "witness inputs per switch (ASan+UBSan)", "F": "scenario families via h_ed (ASan+UBSan)",
                                             "S": "call-sequence variety via h_c17 (ASan+UBSan)", "S-pending": "probes of the PENDING findings",
-                                            "H": "harnesses of C05/C13/C15 (ASan+UBSan)", "M": "MPI np=2,3[,4] via h_c06 (ASan+UBSan)",
+                                            "H": "harnesses of C05/C13/C15 (ASan+UBSan)", "M": "MPI np=2,3[,4] via h_c06 and h_c16 (ASan+UBSan)",
                                             "V": "Valgrind memcheck, non-instrumented build"}}
     chk.extra["pending_findings"] = [{k: v for k, v in h.items() if k != "replay"} for h in R.pending_hits]
     if chk.notes:
@@ -481,7 +517,7 @@ def run(chk):
 
 
 def setup():
-    for h in ("h_ed", "h_c15", "h_c05", "h_c13", "h_c17", "h_c18", "h_c20", "h_c06"):
+    for h in ("h_ed", "h_c15", "h_c05", "h_c13", "h_c17", "h_c18", "h_c20", "h_c06", "h_c16"):
         pv.build_harness(h, "asan")
     pv.build_harness("h_c17", "real")
     pv.build_harness("h_ed", "real")
